@@ -288,6 +288,15 @@ fn verif_native_stack_gate_cli() {
         evaluated += 1;
         let (off, _) = run_lace(&["run", "-m", asm.to_str().unwrap()]).expect("lace binary");
         let (on, _) = run_lace(&["run", "-m", "-f", "stack", asm.to_str().unwrap()]).expect("lace binary");
+        // the same program as an object file (the loader path of `run` must initialise the flag as well)
+        let obj = dir.join("g.lc3");
+        let _ = run_lace(&["compile", asm.to_str().unwrap(), obj.to_str().unwrap()]);
+        let (off_img, _) = run_lace(&["run", "-m", obj.to_str().unwrap()]).expect("lace binary");
+        let (on_img, _) = run_lace(&["run", "-m", "-f", "stack", obj.to_str().unwrap()]).expect("lace binary");
+        if off_img != 1 || on_img != 0 {
+            verif_out(&format!("VERIF-COUNTEREXAMPLE name={} input=object file compiled from {:?} detail=exit status {} without the flag (expected 1), {} with -f stack (expected 0)", name, src, off_img, on_img));
+            panic!("violation");
+        }
         if off != 1 || on != 0 {
             verif_out(&format!("VERIF-COUNTEREXAMPLE name={} input=program {:?} detail=exit status {} without the flag (expected 1), {} with -f stack (expected 0)", name, src, off, on));
             panic!("violation");
@@ -606,6 +615,9 @@ fn verif_native_size_extremes_cli() {
         ("unknown token at column 70000 after a tab", format!("halt\t{}@\n", " ".repeat(70000)), 1),
         ("end of file after a 70000-character comment", format!("halt\nlbl ;{}", "c".repeat(70000)), 1),
         ("out-of-range literal at column 66000", format!("add r0, r0,{}#99\n", " ".repeat(66000)), 1),
+        ("out-of-range literal at column 90000", format!("add r0, r0,{}#99\n", " ".repeat(90000)), 1),
+        ("unknown token at column 300000", format!("halt{}@\n", " ".repeat(300000)), 1),
+        ("out-of-range literal after 30000 tabs", format!("add r0, r0,{}#99\n", "\t".repeat(30000)), 1),
         (".blkw xFFFF on 4000 lines", ".blkw xFFFF\n".repeat(4000), 1),
         (".blkw #65535 on 4000 lines", ".blkw #65535\n".repeat(4000), 1),
         ("a 70000-character .stringz", format!(".stringz \"{}\"\n", "s".repeat(70000)), 1),
